@@ -128,13 +128,16 @@ Sieve::iterator::~iterator()
 unsigned Sieve::iterator::next_prime()
 {
     std::vector<unsigned> &_primes = sieve_primes();
-    if (_index >= _primes.size()) {
-        unsigned extend_to = _primes[_index - 1] * 2;
+    // The sieve may have been cleared (by generate_primes, clear or another
+    // iterator) since the last call, so extend from what it holds now.
+    while (_index >= _primes.size()) {
+        unsigned extend_to = _primes.back() * 2;
         if (_limit > 0 and _limit < extend_to) {
             extend_to = _limit;
         }
         _extend(extend_to);
-        if (_index >= _primes.size()) { // the next prime is greater than _limit
+        if (extend_to == _limit and _index >= _primes.size()) {
+            // the next prime is greater than _limit
             return _limit + 1;
         }
     }
